@@ -21,7 +21,7 @@ fn dis(sig: &str, what: String, transcript: &[String]) -> Disagreement {
 
 // ------------------------------------------------------------ counter model
 
-#[derive(Clone, Debug, PartialEq, Eq, Hash)]
+#[derive(Clone, Debug, PartialEq, Eq, Hash, serde::Serialize, serde::Deserialize)]
 enum COp {
     Inc(usize),
     IncBy(usize),
@@ -198,7 +198,7 @@ fn opname<T: std::fmt::Debug>(o: &T) -> String {
 
 // ---------------------------------------------------------- histogram model
 
-#[derive(Clone, Debug, PartialEq, Eq, Hash)]
+#[derive(Clone, Debug, PartialEq, Eq, Hash, serde::Serialize, serde::Deserialize)]
 enum HOp {
     ObserveLo(usize),
     ObserveHi(usize),
@@ -337,7 +337,7 @@ impl Sut for HistSut {
 
 // -------------------------------------------------------------- vector models
 
-#[derive(Clone, Debug, PartialEq, Eq, Hash)]
+#[derive(Clone, Debug, PartialEq, Eq, Hash, serde::Serialize, serde::Deserialize)]
 enum VOp {
     /// local vec j: with_label_values([k]) then update
     LvUpd(usize, usize),
@@ -592,11 +592,17 @@ fn main() {
     let thorough = args.tier == Tier::Thorough;
     if let Some(p) = &args.replay {
         let doc = read_replay(p);
-        println!("replay of {} ops on model {}:", replay_value_ops(&doc).len(), doc["model"]);
-        for l in doc["transcript"].as_array().cloned().unwrap_or_default() {
-            println!("  recorded: {}", l.as_str().unwrap_or(""));
-        }
-        println!("(re-run the check to re-derive; histories are found breadth-first, shortest first)");
+        let model = doc["model"].as_str().unwrap_or("").trim_start_matches("merged:").to_string();
+        let rc = match model.as_str() {
+            "local-counter-f64" => replay_cli("C12", p, &doc, &CounterSut { int: false, merge: false }),
+            "local-counter-int" => replay_cli("C12", p, &doc, &CounterSut { int: true, merge: false }),
+            "local-histogram" => replay_cli("C12", p, &doc, &HistSut { merge: false }),
+            "local-counter-vec" => replay_cli("C12", p, &doc, &VecSut { kind: VK::Counter, merge: false }),
+            "local-int-counter-vec" => replay_cli("C12", p, &doc, &VecSut { kind: VK::IntCounter, merge: false }),
+            "local-histogram-vec" => replay_cli("C12", p, &doc, &VecSut { kind: VK::Histogram, merge: false }),
+            _ => 2,
+        };
+        std::process::exit(rc);
     }
     let depth = if thorough { 6 } else { 5 };
     let vdepth = if thorough { 5 } else { 4 };
